@@ -22,6 +22,7 @@ type Profile struct {
 	PGate              int // weight of parking handlers among valid members (out of 100)
 	PInvalid           int // weight of invalid members (out of 100)
 	PUnknown           int // weight of unknown / reserved methods (out of 100)
+	PTopInvalid        int // probability of a record that is no JSON at all or an empty array (out of 100)
 	PBatch             int // probability of a batch record (out of 100)
 	MaxBatch           int
 	PCancel            int // weight of cancel steps (out of 100 steps)
@@ -131,6 +132,9 @@ func (s *State) Member(t *rapid.T, p Profile) string {
 
 // Record generates one inbound record (single member or batch).
 func (s *State) Record(t *rapid.T, p Profile) string {
+	if p.PTopInvalid > 0 && rapid.IntRange(0, 99).Draw(t, "topinvalid") < p.PTopInvalid {
+		return pick(t, "garbage", []string{`[]`, `[]`, `{`, `nope`, `[1,`, `{"jsonrpc":"2.0","id":1,"method":"ret"`, `}`, ` [ ] `})
+	}
 	if rapid.IntRange(0, 99).Draw(t, "batch") < p.PBatch {
 		n := rapid.IntRange(1, p.MaxBatch).Draw(t, "n")
 		var ms []string
